@@ -16,7 +16,7 @@ package json
 
 // C02 (integers): the value handed to strconv is the mathematical value of the
 // argument, in base 10; strconv's decimal text is trusted to denote it.
-//@ track strconv.AppendInt, strconv.AppendUint, strconv.AppendBool, Time.Unix, Time.UnixNano, Time.AppendFormat, Encoder.AppendFloat64
+//@ track strconv.AppendInt, strconv.AppendUint, strconv.AppendBool, strconv.AppendFloat, math.IsNaN, math.IsInf, Time.Unix, Time.UnixNano, Time.AppendFormat, Encoder.AppendFloat64
 
 //@ var JSONMarshalFunc(v) res, err
 //@   modifies nothing
@@ -466,6 +466,9 @@ package json
 //@   flag assumepost strconv.AppendFloat emits a JSON number; the in-place rewrite of a trailing e-0d to e-d keeps it one (the byte automaton is not run backwards over an in-place edit)
 //@   requires valueok(dst)
 //@   ensures emitsvalue(res, dst)
+//@   ensures [C02] ncalls(math.IsNaN) == old(ncalls(math.IsNaN)) + 1 && callarg(math.IsNaN, old(ncalls(math.IsNaN)), 0) == val
+//@   ensures [C02] !callres(math.IsNaN, old(ncalls(math.IsNaN)), 0) && ncalls(math.IsInf) == old(ncalls(math.IsInf)) + 2 && !callres(math.IsInf, old(ncalls(math.IsInf)), 0) && !callres(math.IsInf, old(ncalls(math.IsInf)) + 1, 0) ==> ncalls(strconv.AppendFloat) == old(ncalls(strconv.AppendFloat)) + 1 && callarg(strconv.AppendFloat, old(ncalls(strconv.AppendFloat)), 1) == val && callarg(strconv.AppendFloat, old(ncalls(strconv.AppendFloat)), 3) == precision && callarg(strconv.AppendFloat, old(ncalls(strconv.AppendFloat)), 4) == bitSize && (callarg(strconv.AppendFloat, old(ncalls(strconv.AppendFloat)), 2) == 'e' || callarg(strconv.AppendFloat, old(ncalls(strconv.AppendFloat)), 2) == 'f')
+//@   ensures [C02] precision != -1 && ncalls(strconv.AppendFloat) == old(ncalls(strconv.AppendFloat)) + 1 ==> callarg(strconv.AppendFloat, old(ncalls(strconv.AppendFloat)), 2) == 'f'
 
 //@ func (Encoder).AppendFloat32(e, dst, val, precision) res
 //@   props C01
